@@ -42,10 +42,32 @@ pub const METHODS: &[&str] = &["GET", "POST", "PUT", "DELETE", "HEAD", "OPTIONS"
 pub const PATHS: &[&str] = &["", "/", "/a/b", "/a%20b/", "//double", "/~user/;p=1", "/*", "/a/./../b", "/%", "/:@!$&'()+,=", "/index.html"];
 pub const QUERIES: &[&str] = &["", "x=1", "a=1&b=2", "?", "q=%20+", "/path?again"];
 
+/// Hosts from the URI grammar rather than the table: reg-names over unreserved / sub-delims /
+/// pct-encoded characters, bracketed literals with arbitrary URI characters between the brackets
+/// (IPv6, IPvFuture, nonsense, empty), very long names and labels. Only strings the `http` crate
+/// accepts as the host of an absolute URI are kept. The alphabet cannot spell a name covered by
+/// the fixture certificates.
+pub fn generated_host_strategy() -> impl proptest::strategy::Strategy<Value = String> {
+    use proptest::prelude::*;
+    prop_oneof![
+        4 => "[a-c0-2xXzZ._~!$&'()*+,;=-]{1,14}",
+        2 => "[a-c0-2._-]{0,6}(%41|%2e|%7E|%zz|%)[a-c0-2._-]{0,6}",
+        4 => "\\[[0-9a-fA-Fv:.+$%x!-]{0,14}\\]",
+        1 => "\\[(::|::1|fe80::1%25x0|v1\\.fe80::a\\+x1|::ffff:1\\.2\\.3\\.4|1:2:3:4:5:6:7:8:9|[0-9a-f:]{2,30})\\]",
+        1 => (1usize..5, 60usize..70).prop_map(|(n, l)| vec!["a".repeat(l); n].join(".")),
+        1 => (250usize..300).prop_map(|l| format!("{}.test", "b".repeat(l))),
+        1 => "[0-9]{1,3}\\.[0-9]{1,3}\\.[0-9]{1,3}(\\.[0-9]{1,4})?",
+    ]
+    .prop_filter("host accepted by the http crate", |h| format!("https://{h}/").parse::<http::Uri>().map(|u| u.host().is_some()).unwrap_or(false))
+}
+
 #[derive(Clone, Debug, Serialize, Deserialize, PartialEq)]
 pub struct ReqCase {
     pub scheme: u8,
     pub host: u8,
+    /// a generated host that replaces the table entry
+    #[serde(default)]
+    pub ghost: Option<String>,
     pub port: Option<u16>,
     pub path: u8,
     pub query: Option<u8>,
@@ -68,8 +90,11 @@ impl ReqCase {
     pub fn query_str(&self) -> Option<&'static str> {
         self.query.map(|q| QUERIES[q as usize % QUERIES.len()])
     }
-    pub fn host_str(&self) -> &'static str {
-        HOSTS[self.host as usize % HOSTS.len()]
+    pub fn host_str(&self) -> &str {
+        match &self.ghost {
+            Some(h) => h.as_str(),
+            None => HOSTS[self.host as usize % HOSTS.len()],
+        }
     }
     pub fn scheme_str(&self) -> &'static str {
         SCHEMES[self.scheme as usize % SCHEMES.len()]
@@ -639,7 +664,7 @@ impl Engine for ReqEngine {
 pub fn strategy() -> impl proptest::strategy::Strategy<Value = ReqCase> {
     use proptest::prelude::*;
     (
-        (0u8..6, 0u8..14, prop_oneof![3 => Just(None), 1 => Just(Some(80u16)), 1 => Just(Some(443u16)), 1 => Just(Some(8080u16)), 1 => any::<u16>().prop_map(Some)]),
+        (0u8..6, 0u8..14, prop_oneof![3 => Just(None), 1 => Just(Some(80u16)), 1 => Just(Some(443u16)), 1 => Just(Some(8080u16)), 1 => any::<u16>().prop_map(Some)], prop_oneof![3 => Just(None), 1 => generated_host_strategy().prop_map(Some)]),
         (0u8..11, prop_oneof![2 => Just(None), 3 => (0u8..6).prop_map(Some)]),
         prop_oneof![6 => Just(0u8), 2 => Just(1u8), 1 => Just(2u8), 1 => Just(3u8)],
         prop_oneof![3 => Just(0u8), 2 => 1u8..6, 2 => Just(6u8), 2 => 6u8..11],
@@ -649,9 +674,10 @@ pub fn strategy() -> impl proptest::strategy::Strategy<Value = ReqCase> {
         any::<bool>(),
         prop_oneof![2 => Just(0u8), 1 => 1u8..40],
     )
-        .prop_map(|((scheme, host, port), (path, query), form, method, version, caller_host, preset, conn_h2, body)| ReqCase {
+        .prop_map(|((scheme, host, port, ghost), (path, query), form, method, version, caller_host, preset, conn_h2, body)| ReqCase {
             scheme,
             host,
+            ghost,
             port,
             path,
             query,
